@@ -23,8 +23,8 @@ fn kani_concrete_playback_c06_bincode_hugelen_b8() {
         vec![0],
         // 0
         vec![0],
-        // 128
-        vec![128],
+        // 254
+        vec![254],
     ];
     kani::concrete_playback_run(concrete_vals, c06_bincode_hugelen_b8);
 }
